@@ -6,15 +6,42 @@ import (
 	"verif/harness/internal/core"
 )
 
+// base alphabet (req a,b,c; res a,b,c; export; export-and-reset; reset) and the fault letters
+// (1 2 3 = response for a b c whose body read fails, 4 5 6 = request for a b c whose body read fails)
 var alphabet = []byte("abcABCexr")
+var faultAlphabet = []byte("abcABCexr123456")
 
-// allWords emits every word of exactly n letters over the alphabet, in blocks.
-func allWords(n int, block int, emit func([]string)) {
+func isFaultLetter(c byte) bool { return c >= '1' && c <= '6' }
+
+// idOf: which of the three IDs a letter is about (-1: none).
+func idOf(c byte) int {
+	switch {
+	case c >= 'a' && c <= 'c':
+		return int(c - 'a')
+	case c >= 'A' && c <= 'C':
+		return int(c - 'A')
+	case c >= '1' && c <= '3':
+		return int(c - '1')
+	case c >= '4' && c <= '6':
+		return int(c - '4')
+	}
+	return -1
+}
+
+// allWords emits every word of exactly n letters over the alphabet that satisfies keep (nil =
+// all), in blocks. canon = only words whose IDs first occur in the order a, b, c (one
+// representative of every class of words equal up to a renaming of the IDs).
+func allWords(alpha []byte, n int, block int, canon bool, keep func([]byte) bool, emit func([]string)) int {
 	var ops []string
 	buf := make([]byte, n)
-	var rec func(i int)
-	rec = func(i int) {
+	total := 0
+	var rec func(i, used int)
+	rec = func(i, used int) {
 		if i == n {
+			if keep != nil && !keep(buf) {
+				return
+			}
+			total++
 			ops = append(ops, "seq "+string(buf))
 			if len(ops) == block {
 				emit(ops)
@@ -22,26 +49,108 @@ func allWords(n int, block int, emit func([]string)) {
 			}
 			return
 		}
-		for _, c := range alphabet {
+		for _, c := range alpha {
+			u := used
+			if canon {
+				if d := idOf(c); d >= 0 {
+					if d > used {
+						continue
+					}
+					if d == used {
+						u = used + 1
+					}
+				}
+			}
 			buf[i] = c
-			rec(i + 1)
+			rec(i+1, u)
 		}
 	}
-	rec(0)
+	rec(0, 0)
 	if len(ops) > 0 {
 		emit(ops)
 	}
+	return total
 }
 
-type profile struct{ req, res, export, xreset, reset int }
+func hasFault(w []byte) bool {
+	for _, c := range w {
+		if isFaultLetter(c) {
+			return true
+		}
+	}
+	return false
+}
 
+type profile struct{ req, res, export, xreset, reset, faulty, opts int }
+
+// faulty = percentage of req/res calls that carry a non-plain message (a framed body, a content
+// type, a read / decode fault); opts = weight of SetOption calls.
 var profiles = []profile{
-	{40, 35, 8, 15, 2},  // balanced
-	{55, 20, 5, 18, 2},  // many pending
-	{35, 45, 5, 14, 1},  // mostly completed
-	{30, 30, 5, 30, 5},  // export-and-reset heavy
-	{45, 40, 10, 5, 0},  // long lists, few removals
-	{30, 30, 10, 15, 15}, // reset heavy
+	{40, 35, 8, 15, 2, 0, 0},    // balanced, plain messages only
+	{55, 20, 5, 18, 2, 15, 1},   // many pending
+	{35, 45, 5, 14, 1, 25, 2},   // mostly completed
+	{30, 30, 5, 30, 5, 30, 2},   // export-and-reset heavy
+	{45, 40, 10, 5, 0, 10, 1},   // long lists, few removals
+	{30, 30, 10, 15, 15, 20, 3}, // reset heavy
+	{35, 40, 5, 18, 2, 60, 6},   // fault heavy
+}
+
+var reqCtypes = []string{"", "text/plain", "application/json", "application/x-www-form-urlencoded",
+	"multipart/form-data; boundary=" + mpBoundary, "Application/X-WWW-Form-Urlencoded; charset=utf-8", "image/png"}
+var resCtypes = []string{"", "text/plain", "Text/HTML; charset=utf-8", "application/json", "image/png", "application/octet-stream"}
+var optPrefixes = []string{"text/", "application/", "image/png", "TEXT/html", "multipart/", "application/x-www", "a", ""}
+
+func randMsgOp(r *core.Rand, isReq bool, id string) string {
+	if isReq {
+		ct := reqCtypes[r.Intn(len(reqCtypes))]
+		framed := r.Chance(4, 5)
+		fault := "n"
+		switch x := r.Intn(10); {
+		case x < 4:
+			fault = "r"
+		case x < 7:
+			if _, ok := reqPayload(ct, true); ok {
+				fault = "d"
+			}
+		}
+		fr := "0"
+		if framed {
+			fr = "1"
+		}
+		return "reqm " + id + " " + fr + " " + core.HexS(ct) + " " + fault
+	}
+	ct := resCtypes[r.Intn(len(resCtypes))]
+	fault := "n"
+	switch x := r.Intn(10); {
+	case x < 4:
+		fault = "r"
+	case x < 7:
+		fault = "d"
+	}
+	return "resm " + id + " " + core.HexS(ct) + " " + fault
+}
+
+func randOptOp(r *core.Rand) string {
+	which := r.Pick("post", "body")
+	switch r.Intn(4) {
+	case 0:
+		return "opt " + which + " all 0"
+	case 1:
+		return "opt " + which + " all 1"
+	}
+	n := r.Range(0, 3)
+	var hs []string
+	for i := 0; i < n; i++ {
+		hs = append(hs, core.HexS(optPrefixes[r.Intn(len(optPrefixes))]))
+	}
+	arg := "-"
+	if len(hs) > 0 {
+		arg = hs[0]
+		for _, h := range hs[1:] {
+			arg += "," + h
+		}
+	}
+	return "opt " + which + " " + r.Pick("only", "skip") + " " + arg
 }
 
 func randomHistory(r *core.Rand, n int) []string {
@@ -53,7 +162,7 @@ func randomHistory(r *core.Rand, n int) []string {
 			ids = append(ids, "k"+strconv.Itoa(i))
 		}
 	}
-	tot := p.req + p.res + p.export + p.xreset + p.reset
+	tot := p.req + p.res + p.export + p.xreset + p.reset + p.opts
 	ops := make([]string, 0, n)
 	// a rough simulation of the log steers IDs: mostly fresh requests and responses for pending
 	// entries, with a steady share of duplicates, repeated responses and orphans
@@ -70,7 +179,18 @@ func randomHistory(r *core.Rand, n int) []string {
 		}
 		return c[r.Intn(len(c))], true
 	}
+	// a quarter of the histories reach the log through the HTTP handlers as well
+	handlers := r.Chance(1, 4)
+	via := func() string {
+		if handlers && r.Chance(1, 2) {
+			return "h"
+		}
+		return ""
+	}
 	for i := 0; i < n; i++ {
+		if handlers && r.Chance(1, 25) {
+			ops = append(ops, "hrefused "+r.Pick("export", "reset", "param"))
+		}
 		x := r.Intn(tot)
 		switch {
 		case x < p.req:
@@ -79,6 +199,12 @@ func randomHistory(r *core.Rand, n int) []string {
 				if f, ok := pickWhere(func(id string) bool { _, live := done[id]; return !live }); ok {
 					id = f
 				}
+			}
+			if r.Intn(100) < p.faulty {
+				// whether it is recorded depends on the options in force: the steering
+				// simulation does not follow that (it only biases the choice of IDs)
+				ops = append(ops, randMsgOp(r, true, id))
+				continue
 			}
 			if _, live := done[id]; !live {
 				done[id] = false
@@ -91,22 +217,28 @@ func randomHistory(r *core.Rand, n int) []string {
 					id = f
 				}
 			}
+			if r.Intn(100) < p.faulty {
+				ops = append(ops, randMsgOp(r, false, id))
+				continue
+			}
 			if _, live := done[id]; live {
 				done[id] = true
 			}
 			ops = append(ops, "res "+id)
 		case x < p.req+p.res+p.export:
-			ops = append(ops, "export")
+			ops = append(ops, via()+"export")
 		case x < p.req+p.res+p.export+p.xreset:
 			for id, d := range done {
 				if d {
 					delete(done, id)
 				}
 			}
-			ops = append(ops, "xreset")
-		default:
+			ops = append(ops, via()+"xreset")
+		case x < p.req+p.res+p.export+p.xreset+p.reset:
 			done = map[string]bool{}
-			ops = append(ops, "reset")
+			ops = append(ops, via()+"reset")
+		default:
+			ops = append(ops, randOptOp(r))
 		}
 	}
 	// always end by looking at the log twice
@@ -114,15 +246,27 @@ func randomHistory(r *core.Rand, n int) []string {
 }
 
 func (P) Gen(r *core.Rand, tier string, emit func([]string)) {
-	maxLen, nShort, nLong, nConc := 5, 300, 12, 24
+	maxLen, maxFault, canonFault, nShort, nLong, nConc, nStorm, nHammer := 5, 4, 5, 300, 12, 24, 16, 150
 	if tier == "thorough" {
-		maxLen, nShort, nLong, nConc = 7, 6000, 300, 400
+		maxLen, maxFault, canonFault, nShort, nLong, nConc, nStorm, nHammer = 7, 5, 6, 6000, 300, 400, 300, 3000
 	}
 	emit([]string{"alias"})
+	nBase, nFault, nCanon := 0, 0, 0
 	for n := 1; n <= maxLen; n++ {
-		allWords(n, 6561, emit)
+		nBase += allWords(alphabet, n, 6561, false, nil, emit)
 	}
-	core.Notes["exhaustive"] = "every word over {req a,b,c; res a,b,c; export; export-and-reset; reset} of length 1.." + strconv.Itoa(maxLen)
+	// the same alphabet plus the failing calls (resfail a|b|c, reqfail a|b|c): every word that
+	// contains at least one of them (the others were just run)
+	for n := 1; n <= maxFault; n++ {
+		nFault += allWords(faultAlphabet, n, 6561, false, hasFault, emit)
+	}
+	// one step longer, one representative per renaming of the IDs
+	for n := maxFault + 1; n <= canonFault; n++ {
+		nCanon += allWords(faultAlphabet, n, 6561, true, hasFault, emit)
+	}
+	core.Notes["exhaustive"] = "every word over {req a,b,c; res a,b,c; export; export-and-reset; reset} of length 1.." + strconv.Itoa(maxLen) +
+		" (" + strconv.Itoa(nBase) + "); every word over that alphabet + {failing response a,b,c; failing request a,b,c} of length 1.." + strconv.Itoa(maxFault) +
+		" with at least one failing call (" + strconv.Itoa(nFault) + "); the same of length " + strconv.Itoa(canonFault) + " up to renaming of the IDs (" + strconv.Itoa(nCanon) + ")"
 	for i := 0; i < nShort; i++ {
 		emit(randomHistory(r, r.Range(5, 60)))
 	}
@@ -134,5 +278,17 @@ func (P) Gen(r *core.Rand, tier string, emit func([]string)) {
 		n := r.Range(4, 14)
 		mode := r.Pick("own", "shared", "reset")
 		emit([]string{"conc " + strconv.FormatUint(r.U64()>>1, 10) + " " + strconv.Itoa(g) + " " + strconv.Itoa(n) + " " + mode})
+	}
+	// hammering: short bodiless calls back to back (what overlaps is the critical sections)
+	for i := 0; i < nHammer; i++ {
+		g := r.Pick("4", "8", "8", "12")
+		n := r.Range(15, 60)
+		emit([]string{"conc " + strconv.FormatUint(r.U64()>>1, 10) + " " + g + " " + strconv.Itoa(n) + " hammer"})
+	}
+	// duplicate storms: every goroutine hammers the same id at the same time (see stormSteps)
+	for i := 0; i < nStorm; i++ {
+		g := r.Pick("2", "3", "5", "8")
+		n := r.Range(3, 9)
+		emit([]string{"conc " + strconv.FormatUint(r.U64()>>1, 10) + " " + g + " " + strconv.Itoa(n) + " storm"})
 	}
 }
